@@ -10,7 +10,7 @@
 //   (wi.smax w) (wi.smin w) (wi.umax w) (wi.umin w) => r|err
 //   (wi.<bin> w a b) => r|err                add sub mul udiv urem sdiv srem and or xor
 //                                            addeq subeq muleq ; shl lshr ashr (amount < w)
-//                                            shl_big lshr_big ashr_big (amount >= w: edge stream)
+//                                            shl_big lshr_big ashr_big (amount >= w, also >= 64)
 //   (wi.<cmp> w a b) => 0|1                  eq ne lt le gt ge
 //   (wi.<un> w a) => r                       neg inc dec
 //   (wi.msb w a) (wi.iszero w a) => 0|1
@@ -18,8 +18,8 @@
 //   (wi.strs w a) (wi.stru w a) => z         get_signed_str / get_unsigned_str
 //   (wi.sext w a k) (wi.zext w a k) (wi.keeplower w a k) => (w' r)|err
 //   (wi.chain w a s op b) => r|0|1|z|err     t = a.ashr(s); then `t op b` (op binary/cmp) or
-//                                            `op t` (op unary; b ignored): the unreduced values
-//                                            produced by ashr flow into other operations
+//                                            `op t` (op unary; b ignored): the value produced
+//                                            by ashr flows into other operations
 // Operands a, b are built with the public constructor wrapint(uint64_t, w).
 #include "common.hpp"
 #include <crab/numbers/wrapint.hpp>
